@@ -30,6 +30,8 @@ enum Term {
     Done,
     CloseNoDone,
     Abort,
+    /// the terminal marker, after which the provider keeps the connection open for 8 s
+    DoneThenHold,
 }
 
 #[derive(Clone, Debug, PartialEq, Eq, Hash)]
@@ -58,8 +60,11 @@ fn resp_of(r: &R, n: usize) -> Resp {
     match r {
         R::Stream(evs, term) => {
             let mut vals: Vec<Value> = evs.iter().map(|e| ev_json(e, n)).collect();
-            if *term == Term::Done {
+            if *term == Term::Done || *term == Term::DoneThenHold {
                 vals.push(Value::String("[DONE]".into()));
+            }
+            if *term == Term::DoneThenHold {
+                return Resp::SseThenHold { chunks: vec![sse(&vals)], hold_ms: 8000 };
             }
             Resp::Sse { chunks: vec![sse(&vals)], abort: *term == Term::Abort }
         }
@@ -94,7 +99,7 @@ fn has_call(r: &R) -> bool {
 
 fn scripts(tier: Tier) -> Vec<Vec<R>> {
     let evs = [Ev::Text, Ev::Completed, Ev::CallWrite, Ev::CallUnknown, Ev::CallBadArgs, Ev::Malformed, Ev::SchemaInvalid];
-    let terms = [Term::Done, Term::CloseNoDone, Term::Abort];
+    let terms = [Term::Done, Term::CloseNoDone, Term::Abort, Term::DoneThenHold];
     let max_events = tier.pick(2, 3);
     let mut firsts: Vec<R> = Vec::new();
     let mut seqs: Vec<Vec<Ev>> = vec![vec![]];
@@ -138,6 +143,7 @@ fn scripts(tier: Tier) -> Vec<Vec<R>> {
         R::Stream(vec![Ev::Text], Term::CloseNoDone),
         R::Stream(vec![], Term::Abort),
         R::Stream(vec![Ev::Text], Term::Abort),
+        R::Stream(vec![Ev::Text], Term::DoneThenHold),
         R::Http(500),
         R::Empty,
         R::Stream(vec![Ev::Completed, Ev::CallWrite], Term::Done),
